@@ -25,6 +25,10 @@ CLAIMED = {
          "Theorems in coq/Props/C05.v relate the checker model to the declarative typing relation (see file). The model is tied to the code by comparing accept/reject, the inferred type and every annotation the back ends rely on (literal types, resolved overload key and index, instantiated callee type, member index) on type-directed programs and their type-breaking mutants under five registration histories.",
          "Trusted: Coq kernel, extraction, driver, harness. User environments with their own function tables (types.Env chains deeper than facade's) are not modelled.",
          "DESIGN.md §5 C05"),
+ "C18": ("Coq proof over a transcription of val/{equals,string,map}.go, fun/stringify.go and the parts of strconv/utf8/time they use; differential correspondence on generated value pairs",
+         "Theorems in coq/Props/C18.v (generic in the float arithmetic, with the numeric facts they need stated as hypotheses): equality reflexive and symmetric, strconv.Quote injective, == <=> same map key for primitives, equal values render alike, rendering canonical under permutation of fields and entries, distinct numbers never collide. Tied to the code by comparing String(), Key(), Equals and the string() conversion on thousands of generated pairs (numbers across 2^53 and 2^63, every escape class, nested containers with permuted field and insertion order); the property's own predicate (== vs rendering vs key vs union/intersect/diff membership) is evaluated on the implementation.",
+         "Trusted: Coq kernel, extraction, driver (hardware doubles, shortest float printing by round-trip search), harness. Function values (compared and rendered by address) and times with a monotonic reading or a non-UTC location are outside the model; NaN is outside the property's premise (not self-equal by IEEE).",
+         "DESIGN.md §5 C18"),
 }
 NOT_YET = "machinery for this property is not built yet (work in progress in this repository; see DESIGN.md §5)"
 
